@@ -117,12 +117,12 @@ def ref_mid(t, k, n):
 
 @lru_cache(maxsize=None)
 def parse_pattern(f):
-    """None = the statement has no clause (a ~ that does not escape ? or *)."""
+    """None = the statement has no clause (a ~ that does not escape ?, * or ~)."""
     toks, i = [], 0
     while i < len(f):
         c = f[i]
         if c == '~':
-            if i + 1 < len(f) and f[i + 1] in '?*':
+            if i + 1 < len(f) and f[i + 1] in '?*~':        # ~~ is the tilde itself (as in the criteria of C12)
                 toks.append(('L', f[i + 1]))
                 i += 2
                 continue
@@ -1202,7 +1202,7 @@ def run(tier='quick', seed=0):
         # ---- 4 SEARCH on the helpers
         t0 = time.time()
         falpha = 'aAb?*~.+([$' if thorough else 'aAb?*~.+('
-        walpha = 'aAb?*.~' if thorough else 'aAb?*.'
+        walpha = 'aAb?*.~'
         fmax, wmax = 3, (4 if thorough else 3)
         starts = [None, -1, 0, 1, 2, 3, 4, 5, 6]
         finds = [f for f in strings(falpha, fmax)]
@@ -1217,7 +1217,7 @@ def run(tier='quick', seed=0):
             f'occurrences in swapped case with ?/* substituted); {len(EDGE_SEARCH)} hand-picked cases (texts > 50 / 300 / 1000 characters, start = len, '
             'len+1, characters whose lower-case form is longer, line breaks, quotes, Cyrillic)',
             'one evaluation = one call compared with a reference (smallest p >= start at which the pattern matches a substring; ? one character, '
-            '* any run, ~? ~* literal; comparison by case folding); start < 1 may give #VALUE! or the result for start 1; not counted: a ~ that does not '
+            '* any run, ~? ~* ~~ literal; comparison by case folding); start < 1 may give #VALUE! or the result for start 1; not counted: a ~ that does not '
             'escape ?/*, and an empty match exactly behind the end of the text; non-trivial = a position is expected', True, acc, t0))
 
         # ---- 5 SEARCH through the pipeline
